@@ -148,6 +148,10 @@ def dec_values(op, arr, emb):
         if a.dtype.kind in "mM":
             return emb.dec_arr(a), None
         return [to_rat(x) for x in a.astype(float).tolist()], None
+    if op == "var":
+        return [to_rat(x, max_den=10 ** 6) for x in a.astype(float).tolist()], None
+    if op == "std":
+        return [to_rat(x * x, max_den=10 ** 6) for x in a.astype(float).tolist()], None
     return emb.dec_arr(a), None
 
 
@@ -187,6 +191,8 @@ def run_reduce(case, gb=None):
     n = len(case["keys"])
     set_config(case)
     tr = {k: case[k] for k in ("op", "keys", "vals", "mask", "tf", "oo", "sort")}
+    if op in ("var", "std"):
+        tr["ddof"] = case.get("ddof", 1)
     tr.update(emb=case["emb"], kenc=case["kenc"], nonull=int(emb.nonull), cfg={k: case.get(k) for k in ("T", "R", "kcont", "vcont", "mcont")})
     try:
         keyobj, encs = build_keys(case)
@@ -202,6 +208,8 @@ def run_reduce(case, gb=None):
         kw = dict(mask=mask, transform=bool(case["tf"]), observed_only=bool(case["oo"]))
         if op == "size":
             out = call(gb.size, **kw)
+        elif op in ("var", "std"):
+            out = call(getattr(gb, op), values, ddof=case.get("ddof", 1), **kw)
         else:
             out = call(getattr(gb, op), values, **kw)
     except Exception as ex:
